@@ -185,8 +185,17 @@ func (x *Exec) havocAll(st *State) {
 		if strings.HasPrefix(h, "GH$lock$") {
 			continue // a callee releases what it acquires: the locks this function holds are unchanged
 		}
+		old, had := st.Heaps[h]
 		st.Heaps[h] = x.declare(h+"@h", x.S.heaps[h])
 		x.noteWrite(h)
+		if had {
+			// cells of locals whose address never left this function are out of any callee's reach
+			for _, pc := range x.privCells {
+				if pc.heap == h {
+					x.assume(mkEq(Term{app("select", st.Heaps[h], pc.ref), ""}, Term{app("select", old, pc.ref), ""}))
+				}
+			}
+		}
 	}
 	na := x.declare("alloc@h", "Int")
 	x.assume(Term{app(">=", na, st.Alloc), "Bool"})
